@@ -352,6 +352,7 @@ let run_history (lines : string list) =
          | RSearch (Some e, _) -> emit (Printf.sprintf "r %s 0" (rd (cls e)))
          | RSearch (None, n) -> emit (Printf.sprintf "r ok %s" (string_of_z n))
          | RPanic -> emit "r panic" | RCrash -> emit "r crash" | _ -> emit "r ?")
+    | [ "snapcheck" ] -> emit "r ok"
     | [ "commit" ] -> unit_line (do_step OCommit)
     | [ "flushall" ] -> unit_line (do_step OFlushAll)
     | [ "flushallc" ] -> unit_line (do_step OFlushAllCommit)
